@@ -67,6 +67,12 @@ func vWriteCapture(dir string, w *vWorld, k int) (string, error) {
 	if err := pw.WriteFileHeader(65536, layers.LinkTypeIPv4); err != nil {
 		return "", err
 	}
+	if k >= 90 {
+		// an unreadable capture (Manager.tla, Bad): the file ends inside the header of its first record
+		if _, err := f.Write([]byte{1, 2, 3, 4, 5, 6, 7, 8, 9, 10}); err != nil {
+			return "", err
+		}
+	}
 	conns := append([]int(nil), w.Conns...)
 	sort.Ints(conns)
 	for _, c := range conns {
